@@ -783,6 +783,28 @@ func ruleHeaderSizesChecked(r *Report) {
 	}
 }
 
+// inlineEOFConversion: ph merges the error errv with io.ErrUnexpectedEOF such that errv arrives only over the "is not
+// io.EOF" edge of a test of errv — the inline form of `if err == io.EOF { err = io.ErrUnexpectedEOF }`.
+func inlineEOFConversion(ph *ssa.Phi, errv ssa.Value) bool {
+	sawConv, sawErr := false, false
+	for i, e := range ph.Edges {
+		pred := ph.Block().Preds[i]
+		switch {
+		case globalLoad(e) == "io.ErrUnexpectedEOF":
+			sawConv = true
+		case e == errv || stripIface(e) == errv:
+			x, g, _, notS, ok := sentinelTest(pred)
+			if !ok || g != "io.EOF" || (x != errv && stripIface(x) != errv) || notS != ph.Block() {
+				return false
+			}
+			sawErr = true
+		default:
+			return false
+		}
+	}
+	return sawConv && sawErr
+}
+
 // convertsEOF: sc maps io.EOF to io.ErrUnexpectedEOF (and passes everything else on).
 func convertsEOF(sc *ssa.Function) bool {
 	if sc == nil || len(sc.Blocks) == 0 || !inModule(sc) {
@@ -836,6 +858,10 @@ func ruleTornRecordIsNotEOF(r *Report) {
 			res := ret.Results[idx]
 			cands := []ssa.Value{res}
 			if k, vals := returnErrOperand(ret, idx); k == "val" {
+				// a spilled result (functions with defer): what this return stored, not the cell all returns share
+				if u, isU := res.(*ssa.UnOp); isU && u.Op == token.MUL && isCell(u.X) && len(vals) > 0 {
+					cands = nil
+				}
 				cands = append(cands, vals...)
 			}
 			for _, cv := range cands {
@@ -845,8 +871,25 @@ func ruleTornRecordIsNotEOF(r *Report) {
 				if !car[cv] && !car[stripIface(cv)] {
 					continue
 				}
+				// a load of the spilled result cell carries this error only if a store that reaches it does
+				if u, isU := cv.(*ssa.UnOp); isU && u.Op == token.MUL && isCell(u.X) {
+					if svs, unk := reachingStores(u); !unk {
+						any := false
+						for _, sv := range svs {
+							if sv == errv || car[sv] || car[stripIface(sv)] {
+								any = true
+							}
+						}
+						if !any {
+							continue
+						}
+					}
+				}
 				// carried: is there a converter between the read and the return?
 				through := valueDependsOn(cv, func(x ssa.Value) bool {
+					ph, isPhi := x.(*ssa.Phi)
+					return isPhi && inlineEOFConversion(ph, errv)
+				}) || valueDependsOn(cv, func(x ssa.Value) bool {
 					cl, isC := x.(*ssa.Call)
 					if !isC || !convertsEOF(cl.Call.StaticCallee()) {
 						return false
@@ -877,6 +920,31 @@ func ruleTornRecordIsNotEOF(r *Report) {
 					if a == errv {
 						conv = true
 					}
+				}
+			}
+		})
+		eachInstr(fn, func(s Site) {
+			if ph, ok := s.Instr.(*ssa.Phi); ok && inlineEOFConversion(ph, errv) {
+				// … and every use of the error behind the test goes through the merged value
+				onlyTest := true
+				for _, rf := range *errv.Referrers() {
+					switch y := rf.(type) {
+					case *ssa.Phi:
+						if y != ph {
+							onlyTest = false
+						}
+					case *ssa.BinOp, *ssa.DebugRef:
+					case *ssa.Call:
+						if CalleeKey(y) != "errors.Is" {
+							onlyTest = false
+						}
+					case *ssa.MakeInterface, *ssa.ChangeInterface:
+					default:
+						onlyTest = false
+					}
+				}
+				if onlyTest {
+					conv = true
 				}
 			}
 		})
